@@ -69,6 +69,13 @@ type c11State struct {
 
 // c11Procedure runs the export/import/restart comparison for one state; returns violations.
 func c11Procedure(path []SOp, V []uint64) ([]bfs.Viol, error) {
+	return c11ProcedureF(path, V, 0)
+}
+
+// c11ProcedureF is c11Procedure; with faults > 0 the export is also imported into faults further empty instances, during
+// each of which one write of a record (the first, the second, ...) fails: an import that reports success must have
+// imported everything.
+func c11ProcedureF(path []SOp, V []uint64, faults int) ([]bfs.Viol, error) {
 	var vs []bfs.Viol
 	root := rig.Scratch("c11")
 	defer os.RemoveAll(root)
@@ -182,6 +189,33 @@ func c11Procedure(path []SOp, V []uint64) ([]bfs.Viol, error) {
 		}
 		if probesB != probesN {
 			vs = append(vs, bfs.Viol{Key: "reimport-differs:" + CanonReleased(tr.Released, 0, 1), What: fmt.Sprintf("after [%s], export+import into an empty instance decides the ascending probe sequence %s, the original decides %s", pt, probesB, probesN)})
+		}
+	}
+	for n := 1; n <= faults; n++ {
+		dirF := filepath.Join(root, fmt.Sprintf("f%d", n))
+		code, _, _, err := rig.CLIWithEnv([]string{fmt.Sprintf("VERIF_HOOK_FAIL=store.store#%d", n)}, dirF, "--import-slashing-protection", "--genesis-validators-root", rig.GVR, "--slashing-protection-file", file)
+		if err != nil {
+			return nil, err
+		}
+		if code != 0 {
+			continue // reported as failed: the operator knows
+		}
+		wf, err := NewSigWorkerOn(dirF, 2)
+		if err != nil {
+			return nil, err
+		}
+		wf.Accts = wa.Accts
+		for _, a := range wa.Accts {
+			wf.Rig.Adopt("Wallet 1", a)
+		}
+		probesF, err := probeAll(wf, 2, V)
+		wf.Close()
+		if err != nil {
+			return nil, err
+		}
+		if probesF != probesN {
+			vs = append(vs, bfs.Viol{Key: fmt.Sprintf("reimport-with-failed-write-reports-success:write=%d:%s", n, CanonReleased(tr.Released, 0, 1)),
+				What: fmt.Sprintf("after [%s], the export is imported into an empty instance while write %d of a record fails; the import exits 0, but that instance decides the ascending probe sequence %s, the original decides %s", pt, n, probesF, probesN)})
 		}
 	}
 	// (c) restart.
@@ -459,6 +493,25 @@ func C11(tier string) int {
 		run.HarnessErr = firstErr
 		return run.Finish()
 	}
+	// Imports during which a write fails, for histories in which the keys hold both kinds of record, one kind each, and
+	// one key only.
+	faultHist := [][]SOp{
+		{{Kind: "prop", Ents: []Ent{{Key: 0, Slot: 2, Root: 1}}}, {Kind: "att", Ents: []Ent{{Key: 0, S: 0, T: 1, Root: 1}}}, {Kind: "prop", Ents: []Ent{{Key: 1, Slot: 1, Root: 1}}}, {Kind: "att", Ents: []Ent{{Key: 1, S: 1, T: 2, Root: 1}}}},
+		{{Kind: "prop", Ents: []Ent{{Key: 0, Slot: 1, Root: 1}}}, {Kind: "att", Ents: []Ent{{Key: 1, S: 0, T: 1, Root: 1}}}},
+		{{Kind: "att", Ents: []Ent{{Key: 0, S: 1, T: 2, Root: 1}}}, {Kind: "prop", Ents: []Ent{{Key: 0, Slot: 3, Root: 1}}}},
+	}
+	faultyImports := 0
+	for _, h := range faultHist {
+		vs, err := c11ProcedureF(h, V, 4)
+		if err != nil {
+			run.HarnessErr = err
+			return run.Finish()
+		}
+		faultyImports += 4
+		for _, v := range vs {
+			run.Violate(v.Key, v.What, map[string]any{"check": "C11", "path": h, "path_text": pathStrings(h), "import_faults": 4})
+		}
+	}
 	vals := []int64{-1, 0, 1, 5, 1 << 62, 1<<63 - 1}
 	cells, err := c11Legacy(run, vals)
 	if err != nil {
@@ -471,13 +524,14 @@ func C11(tier string) int {
 		"traces_validated_against_impl":  r.Transitions,
 		"evaluations":                    r.Transitions + done + cells,
 		"distinct_nontrivial":            r.States,
-		"rule":                           "BFS over well-formed signing histories on 2 keys collects every distinct state; for each state the real `dirk --export-slashing-protection` is run on its directory and must state exactly the maxima of the signatures released; the export is imported by the real CLI into an empty directory and that instance, the restarted original and a never-restarted replay must decide the same ascending probe sequence (which identifies a watermark state exactly); old-format (gob) records of boundary values are planted and must decide like current-format records",
+		"rule":                           "BFS over well-formed signing histories on 2 keys collects every distinct state; for each state the real `dirk --export-slashing-protection` is run on its directory and must state exactly the maxima of the signatures released; the export is imported by the real CLI into an empty directory and that instance, the restarted original and a never-restarted replay must decide the same ascending probe sequence (which identifies a watermark state exactly); old-format (gob) records of boundary values are planted and must decide like current-format records; for three histories the export is also imported while the n-th write of a record fails (n = 1..4): an import that exits 0 must decide like the original",
 		"samples":                        st.samples.List(),
 		"exhaustive":                     !r.BudgetHit && !capped,
 		"bfs":                            map[string]any{"ops_per_state": len(ops), "epochs": fmtU(E), "depth_completed": r.DepthDone, "cap": r.Capped, "states_by_depth": r.StatesByDepth},
 		"states_exported_and_reimported": done,
 		"probe_values":                   fmtU(V),
 		"legacy_cells":                   cells,
+		"imports_with_a_failing_write":   faultyImports,
 		"legacy_values":                  vals,
 	}
 	run.Assumptions = []string{"the ascending probe sequence distinguishes any two watermark states whose values lie inside the probe alphabet", "values outside the alphabets behave like their neighbours"}
@@ -488,13 +542,14 @@ func init() {
 	Registry["C11"] = C11
 	Replayers["C11"] = func(raw json.RawMessage) int {
 		var rp struct {
-			Path []SOp `json:"path"`
+			Faults int   `json:"import_faults"`
+			Path   []SOp `json:"path"`
 		}
 		if err := json.Unmarshal(raw, &rp); err != nil {
 			fmt.Println(err)
 			return 2
 		}
-		vs, err := c11Procedure(rp.Path, []uint64{0, 1, 2, 3, 4, 5, 6, 7})
+		vs, err := c11ProcedureF(rp.Path, []uint64{0, 1, 2, 3, 4, 5, 6, 7}, rp.Faults)
 		if err != nil {
 			fmt.Println(err)
 			return 2
